@@ -97,12 +97,15 @@ theorem findKey_okByte (hT : T.WF) (enc : Enc) (mode : KeyMode) (b0 : Nat) (r : 
 /-! ### input made of recognised sequences and validly encoded characters, at byte level -/
 
 /-- utf-8: a concatenation of strictly valid characters (every multi-byte table sequence is ASCII, hence such a
-    concatenation), optionally ended by ONE single-byte table key (the 8-bit Meta keys count as recognised only
-    when they end a read) -/
+    concatenation) and of single-byte 8-bit table keys that are NOT UTF-8 lead bytes (80..BF, FE, FF: the decoder
+    reports those at once, `metaCollision` does not apply to them), optionally ended by ONE single-byte table key
+    of any value (the lead-byte-valued Meta keys C0..FD count as recognised only when they end a read) -/
 inductive RecUtf8 (T : KeyTables) : List Nat → Prop
   | nil : RecUtf8 T []
   | last (b : Nat) : T.isKey [b] = true → RecUtf8 T [b]
   | char (p r : List Nat) : Shape p → RecUtf8 T r → RecUtf8 T (p ++ r)
+  | key8 (b : Nat) (r : List Nat) : T.isKey [b] = true → 128 ≤ b → ¬ (0xC0 ≤ b ∧ b ≤ 0xFD) → RecUtf8 T r →
+      RecUtf8 T (b :: r)
 
 /-- ascii: ASCII characters and single-byte table keys (multi-byte table sequences are ASCII);
     latin-1: any bytes (every byte is a character) -/
@@ -111,9 +114,24 @@ def Recognised (T : KeyTables) : Enc → List Nat → Prop
   | .ascii, buf => ∀ b ∈ buf, b < 128 ∨ T.isKey [b] = true
   | .latin1, buf => ∀ b ∈ buf, b < 256
 
-/-- complement of D12's footprint: nowhere in the buffer is a KEYMAP_PREFIXES member followed by a byte >= 0x80 -/
+/-- STATIC over-approximation of the complement of D12's footprint: nowhere in the buffer is a KEYMAP_PREFIXES
+    member followed by a byte >= 0x80. (It also rules out occurrences the decoder never has as its state, e.g.
+    the inner ESC of `1b 5b 31 1b c3 a9`; the exact, decoder-relative form is `runNoD12`.) -/
 def noD12 (T : KeyTables) (buf : List Nat) : Prop :=
   ∀ a p b c, buf = a ++ p ++ b :: c → p ∈ T.prefixes → b < 128
+
+/-- One `find_key()` call on `buf` never hands `get_key` a KEYMAP_PREFIXES member followed by a byte >= 0x80:
+    the bytes collected so far are always an initial segment of `buf`, and (the prefix set being prefix-closed)
+    every initial segment that is a member is reached. -/
+def headNoD12 (T : KeyTables) (buf : List Nat) : Prop :=
+  ∀ p b c, buf = p ++ b :: c → p ∈ T.prefixes → b < 128
+
+/-- EXACT complement of D12's footprint over a whole run (`segment` with fuel `n`): in every `find_key()` call of
+    the run, `headNoD12` holds for the buffer that call starts from. -/
+def runNoD12 (T : KeyTables) (enc : Enc) (mode : KeyMode) : Nat → List Nat → Prop
+  | 0, _ => True
+  | n + 1, buf => headNoD12 T buf ∧
+      ∀ k c r, findKey T enc mode buf = .ok (some (k, c, r)) → runNoD12 T enc mode n r
 
 theorem recUtf8_tail (l : List Nat) (h : RecUtf8 T l) : ∀ b rest, l = b :: rest → b < 128 → RecUtf8 T rest := by
   intro b rest he hb
@@ -126,6 +144,7 @@ theorem recUtf8_tail (l : List Nat) (h : RecUtf8 T l) : ∀ b rest, l = b :: res
     | two b0 b1 h0 => simp at he; omega
     | three b0 b1 b2 h0 => simp at he; omega
     | four b0 b1 b2 b3 h0 => simp at he; omega
+  | key8 b' r _ h128 _ _ => simp at he; omega
 
 theorem recUtf8_drop (m : List Nat) : ∀ r, RecUtf8 T (m ++ r) → (∀ b ∈ m, b < 128) → RecUtf8 T r := by
   induction m with
@@ -141,7 +160,7 @@ theorem noD12_suffix {c r : List Nat} (h : noD12 T (c ++ r)) : noD12 T r := by
 /-- One `find_key()` on non-empty recognised input outside D12's footprint: it returns a key, and what is left
     is again recognised input. -/
 theorem findKey_recognised (hT : T.WF) (enc : Enc) (mode : KeyMode) (buf : List Nat) (hne : buf ≠ [])
-    (hrec : Recognised T enc buf) (hno : enc = .latin1 ∨ noD12 T buf) :
+    (hrec : Recognised T enc buf) (hno : enc = .latin1 ∨ headNoD12 T buf) :
     ∃ k c r, findKey T enc mode buf = .ok (some (k, c, r)) ∧ Recognised T enc r := by
   have single : ∀ b r, T.isKey [b] = true → (r = [] ∨ ([b] ∉ T.prefixes ∧ couldBeUnfinishedChar [b] enc = false)) →
       ∃ k, findKey T enc mode (b :: r) = .ok (some (k, [b], r)) := by
@@ -158,13 +177,21 @@ theorem findKey_recognised (hT : T.WF) (enc : Enc) (mode : KeyMode) (buf : List 
     exact findKeyLoop_key enc mode [] b r k this
   cases enc with
   | utf8 =>
-    have hno : noD12 T buf := by rcases hno with h | h; cases h; exact h
+    have hno : headNoD12 T buf := by rcases hno with h | h; cases h; exact h
     simp only [Recognised] at hrec
     cases hrec with
     | nil => exact absurd rfl hne
     | last b hk =>
       obtain ⟨k, h⟩ := single b [] hk (Or.inl rfl)
       exact ⟨k, [b], [], h, .nil⟩
+    | key8 b r hk h128 hlead hr =>
+      obtain ⟨k, h⟩ := single b r hk (Or.inr ⟨by
+        intro hmem
+        have := (hT.prefix_len hmem).2
+        simp at this; omega, unfinished_isKey hT hk .utf8 (by
+          rintro ⟨_, b', hb', h1, h2⟩
+          simp at hb'; subst hb'; exact hlead ⟨h1, h2⟩)⟩)
+      exact ⟨k, [b], r, h, hr⟩
     | char p r hp hr =>
       by_cases h2 : 2 ≤ p.length
       · have hnk : T.isKey p = false := by
@@ -180,20 +207,20 @@ theorem findKey_recognised (hT : T.WF) (enc : Enc) (mode : KeyMode) (buf : List 
         | one b0 hb0 =>
           obtain ⟨k, c, m, r', h1, h2, h3⟩ := findKey_okByte hT .utf8 mode b0 r hb0 (by
             intro p b c he hp'
-            exact hno [] p b c (by simpa using he) hp')
+            exact hno p b c (by simpa using he) hp')
           exact ⟨k, c, r', h1, recUtf8_drop m r' (by rw [← h2]; exact .char [b0] r (.one b0 hb0) hr) h3⟩
         | two => simp at h2
         | three => simp at h2
         | four => simp at h2
   | ascii =>
-    have hno : noD12 T buf := by rcases hno with h | h; cases h; exact h
+    have hno : headNoD12 T buf := by rcases hno with h | h; cases h; exact h
     simp only [Recognised] at hrec
     match buf, hne, hrec, hno with
     | b0 :: r, _, hrec, hno =>
       by_cases hb0 : b0 < 128
       · obtain ⟨k, c, m, r', h1, h2, h3⟩ := findKey_okByte hT .ascii mode b0 r hb0 (by
           intro p b c he hp'
-          exact hno [] p b c (by simpa using he) hp')
+          exact hno p b c (by simpa using he) hp')
         refine ⟨k, c, r', h1, ?_⟩
         intro b hb
         exact hrec b (by rw [h2]; simp [hb])
@@ -213,5 +240,21 @@ theorem findKey_recognised (hT : T.WF) (enc : Enc) (mode : KeyMode) (buf : List 
       refine ⟨k, c, r', h1, ?_⟩
       intro b hb
       exact hrec b (by rw [h2]; simp [hb])
+
+theorem headNoD12_of_noD12 {buf : List Nat} (h : noD12 T buf) : headNoD12 T buf :=
+  fun p b c he hp => h [] p b c (by simpa using he) hp
+
+/-- the static form implies the exact one -/
+theorem runNoD12_of_noD12 (enc : Enc) (mode : KeyMode) (n : Nat) : ∀ buf, noD12 T buf → runNoD12 T enc mode n buf := by
+  induction n with
+  | zero => intro _ _; trivial
+  | succ n ih =>
+    intro buf h
+    refine ⟨headNoD12_of_noD12 h, ?_⟩
+    intro k c r hf
+    have := (findKeyLoop_lossless enc mode [] buf k c r hf).1
+    apply ih r
+    apply noD12_suffix (c := c)
+    rw [this]; simpa using h
 
 end Curtsies
